@@ -25,9 +25,28 @@ fn usage() -> ! {
     std::process::exit(2);
 }
 
+/// A logger that admits everything and writes nothing: with it installed, `log::set_max_level`
+/// alone decides whether sodg evaluates the arguments of its debug!/trace! records.
+struct NullLogger;
+
+impl log::Log for NullLogger {
+    fn enabled(&self, _: &log::Metadata) -> bool {
+        true
+    }
+    fn log(&self, record: &log::Record) {
+        // format the record (as a real logger would) and drop it
+        let _ = format!("{}", record.args());
+    }
+    fn flush(&self) {}
+}
+
+static NULL_LOGGER: NullLogger = NullLogger;
+
 fn main() {
     let args: Vec<String> = std::env::args().collect();
     obs::install_quiet_panic_hook();
+    let _ = log::set_logger(&NULL_LOGGER);
+    log::set_max_level(log::LevelFilter::Off);
     match args.get(1).map(String::as_str) {
         Some("check") => {
             let (Some(prop), Some(tier)) = (args.get(2), args.get(3)) else { usage() };
